@@ -7,7 +7,8 @@ import BqVerif.Drivers.Util
       abstract result of the regenerated workflow tree of that configuration, with the widths of
       the run substituted (the tree itself does not depend on them)
   compat <model radixes> | <model gate ids> | <model edges u v …> | <circuit radixes> |
-         <circuit gate ids> | <circuit edges> | <placement … or ->
+         <operations in iteration order: gate-id placeholder(0|1) k q1 … qk, flattened> |
+         <placement … or ->
       MachineModel.is_compatible (transcription): true / false / raise
   restore <final mapping> | <q c q c …>          RestoreMeasurements re-keying, or raise
   place <placement> | <mapping>                    ApplyPlacement mapping composition, or raise
@@ -30,6 +31,15 @@ def showOptB : Option Bool → String
   | some false => "false"
   | none => "raise"
 
+/-- `gate ph k q1 … qk` repeated. -/
+def parseOps : Nat → List Nat → Option (List OpView)
+  | _, [] => some []
+  | 0, _ => none
+  | fuel + 1, g :: ph :: k :: rest =>
+    if rest.length < k then none
+    else (parseOps fuel (rest.drop k)).map (fun t => ⟨g, ph != 0, rest.take k⟩ :: t)
+  | _, _ => none
+
 def step (line : String) : String :=
   match groups line with
   | [["final", name, w, mw, numOK, delOK]] =>
@@ -41,15 +51,15 @@ def step (line : String) : String :=
        showState (ainterp cfg h wf.pass (init cfg))
      | none, _, _ => "unknown-workflow"
      | _, _, _ => "bad-op")
-  | ["compat" :: mr, mg, me, cr, cg, ce, pl] =>
-    (match nats mr, nats mg, nats me, nats cr, nats cg, nats ce with
-     | some mr, some mg, some me, some cr, some cg, some ce =>
+  | ["compat" :: mr, mg, me, cr, co, pl] =>
+    (match nats mr, nats mg, nats me, nats cr, (nats co).bind (fun l => parseOps (l.length + 1) l) with
+     | some mr, some mg, some me, some cr, some ops =>
        let placement : Option (Option (List Nat)) :=
          if pl == ["-"] then some none else (nats pl).map some
        (match placement with
-        | some p => showOptB (isCompatible ⟨mr, mg, pairs me⟩ ⟨cr, cg, pairs ce⟩ p)
+        | some p => showOptB (isCompatible ⟨mr, mg, pairs me⟩ ⟨cr, ops⟩ p)
         | none => "bad-op")
-     | _, _, _, _, _, _ => "bad-op")
+     | _, _, _, _, _ => "bad-op")
   | ["restore" :: fm, ms] =>
     (match nats fm, nats ms with
      | some fm, some ms =>
